@@ -13,74 +13,51 @@ every state of every finite history.  The history-level theorems (`nb_token_in_s
 inductive invariant `Inv` (`Lemmas/C04.lean`); `trace_mem` turns any step-level theorem into a statement about every
 entry of `trace (init srv) ops`.
 
-Three statements of the property are **false** of the faithful model, i.e. of the pinned tree; for each the full
-statement is kept (in a comment), the strongest true version is proved as `…_partial`, the negation is proved from a
-concrete witness as `…_false`, and the witness is replayed on the real code by `harness/props/c04.py`.  The witnesses
-that rest on the crash of the generated table's (FORCE_RELEASE, unlocked) cell live in `Props/C04Pinned.lean`, which
-the check builds exactly when the translator sees that cell crash; everything in this file is proved for both
-behaviours of the cell (`force_unlocked_dichotomy`), and `gen_eq_spec_of_fix` / `lock_requests_total_of_fix` show
-that this one cell is the only obstacle to the full statements:
+History.  On the pinned tree (04de7e7) three statements were false of the faithful model and were carried as `_partial` +
+negation witness; all three were repaired in /repo and are now proved at full strength:
 
-* `gen_eq_spec` / `lock_requests_total`: FORCE_RELEASE of an *unlocked* object raises `UnboundLocalError` in the
-  worker thread (`return_token` is never assigned) — the object is dead, every later request hangs;
-* `auto_tokens_distinct`: two client contexts that share a name (allowed by the documentation) both generate
-  `(name, "$lock_1")`; the second `lock()` is granted and the second client's calls execute;
-* `lock_granted_means_owner`: a denied `lock(lock_token="__ACCESS_DENIED__")` issued from a context named like the
-  owning context is *reported* as granted (the denial placeholder equals the caller's own token).
+* `gen_eq_spec`, `lock_requests_total` — FORCE_RELEASE of an unlocked object used to raise `UnboundLocalError` in the
+  worker thread (fixed by 5177c53: the generated table now answers `None` in that cell);
+* `auto_tokens_distinct`, `only_holder_executes` — same-named client contexts used to generate the same token
+  `(name, "$lock_1")` (fixed by 93903ab: tokens carry the per-instance identifier `_instance_id`; the theorems assume
+  what cannot be a theorem, that the identifiers drawn from `os.urandom` by distinct instances differ);
+* `lock_granted_means_owner` — a denied `lock(lock_token="__ACCESS_DENIED__")` from a context named like the owning one
+  used to be reported as granted (fixed by 51f8317: the reply placeholders are refused as custom tokens).
 -/
 namespace QmiModel.Lock
 
 /-! ## Example states used for the non-vacuity `example`s -/
 
 /-- owning context `srv`, clients `cli` and `gui`, one proxy each (0 in `cli`, 1 in `gui`, 2 in `srv`);
-proxy 0 holds the lock with the automatic token `("cli", "$lock_1")` -/
+proxy 0 holds the lock with the automatic token `("cli", "$lock_b1_1")` -/
 def wLocked : Sys :=
-  exec (init "srv") [.newCtx "cli", .newCtx "gui", .newProxy 1, .newProxy 2, .newProxy 0, .lock 0 none]
+  exec (init "srv" "a0") [.newCtx "cli" "b1", .newCtx "gui" "c2", .newProxy 1, .newProxy 2, .newProxy 0, .lock 0 none]
 
 /-- the same population, nobody holds the lock -/
 def wFree : Sys :=
-  exec (init "srv") [.newCtx "cli", .newCtx "gui", .newProxy 1, .newProxy 2, .newProxy 0]
+  exec (init "srv" "a0") [.newCtx "cli" "b1", .newCtx "gui" "c2", .newProxy 1, .newProxy 2, .newProxy 0]
 
 /-- the owning context's proxy holds the lock with the custom token `("srv", "x")` -/
-def wDenied : Sys := exec (init "srv") [.newProxy 0, .lock 0 (some "x")]
+def wDenied : Sys := exec (init "srv" "a0") [.newProxy 0, .lock 0 (some "x")]
 
-/-- two same-named clients lock, then both call -/
+/-- two same-named clients (distinct instance identifiers) lock, then both call -/
 def sameNameOps : List Op :=
-  [.newCtx "cli", .newCtx "cli", .newProxy 1, .newProxy 2, .lock 0 none, .lock 1 none, .call 1 false, .call 0 true]
+  [.newCtx "cli" "b1", .newCtx "cli" "c2", .newProxy 1, .newProxy 2, .lock 0 none, .lock 1 none, .call 1 false,
+   .call 0 true]
 
-/-! ## 1. The generated lock table equals the reference
+/-! ## 1. The generated lock table equals the reference -/
 
-FULL STATEMENT (false on the pinned tree, see `gen_eq_spec_false` in `Props/C04Pinned.lean`):
-
-    theorem gen_eq_spec (srv owner a req) (hi : issuable a req) :
-        lockStep srv owner a req = .ok (lockSpec srv owner a req)
-
-i.e. every request a proxy can issue is answered as the reference lock answers it — in particular no cell crashes.
-`gen_eq_spec_partial` excludes exactly the cell (FORCE_RELEASE, unlocked); `Props/C04Pinned.lean` has the negation. -/
-
-/-- generated = reference for every action, every owner, every request token (all token values, not only the
-finite abstraction), except FORCE_RELEASE of an unlocked object -/
-theorem gen_eq_spec_partial (srv : String) (owner : Option Token) (a : Act) (req : Option Token)
-    (hi : issuable a req) (hf : ¬ (a = .forceRelease ∧ owner = none)) :
+/-- generated = reference for every action, every owner, every request token (all token values, not only the finite
+abstraction) a proxy can issue: every request is answered as the reference lock answers it; no cell crashes -/
+theorem gen_eq_spec (srv : String) (owner : Option Token) (a : Act) (req : Option Token) (hi : issuable a req) :
     lockStep srv owner a req = .ok (lockSpec srv owner a req) :=
-  lockStep_spec srv owner a req hi hf
+  lockStep_spec srv owner a req hi
 
-example : lockStep "srv" (some ⟨"cli", "$lock_1"⟩) .acquire (some ⟨"gui", "$lock_1"⟩)
-    = .ok (some ⟨"cli", "$lock_1"⟩, some (deniedTok "srv")) := by rfl
+example : lockStep "srv" (some ⟨"cli", "$lock_b1_1"⟩) .acquire (some ⟨"gui", "$lock_c2_1"⟩)
+    = .ok (some ⟨"cli", "$lock_b1_1"⟩, some (deniedTok "srv")) := by rfl
 
-/-- the defect is the *only* obstacle: as soon as that one cell answers (`ForceUnlockedAnswers`, which the generated
-table of a repaired tree satisfies by `force_unlocked_dichotomy`), the full statement holds -/
-theorem gen_eq_spec_of_fix (ha : ForceUnlockedAnswers) (srv : String) (owner : Option Token) (a : Act)
-    (req : Option Token) (hi : issuable a req) : lockStep srv owner a req = .ok (lockSpec srv owner a req) := by
-  by_cases hf : a = .forceRelease ∧ owner = none
-  · obtain ⟨rfl, rfl⟩ := hf
-    rw [ha]; rfl
-  · exact lockStep_spec srv owner a req hi hf
-
-/-- on the finite abstraction: no *other* cell a proxy can reach crashes (`decide`-style case split over the
-generated table) -/
-theorem gen_no_other_crash (a : Act) (l : Bool) (r : Rel)
-    (hi : a = .acquire → r ≠ .none) (hf : ¬ (a = .forceRelease ∧ l = false)) :
+/-- on the finite abstraction: no cell a proxy can reach crashes (case split over the generated table) -/
+theorem gen_no_crash (a : Act) (l : Bool) (r : Rel) (hi : a = .acquire → r ≠ .none) :
     ∃ st rep, Gen.LockFsm.table a l r = .ok st rep := by
   cases a <;> cases l <;> cases r <;> simp_all [Gen.LockFsm.table]
 
@@ -93,27 +70,26 @@ theorem guard_eq_spec (owner req : Option Token) :
 
 /-- while the object is locked by `o`, a `lock()` never changes the owner; it is granted only to a request carrying
 `o` itself (a custom token shared on purpose) and denied — result `False`, proxy bookkeeping untouched — to every
-other token (the denial placeholder excepted, see `lock_granted_means_owner_false`) -/
+other token -/
 theorem single_owner {s : Sys} {p : Nat} {custom : Option String} {o t : Token}
     (halive : s.dead = none) (ho : s.owner = some o) (ht : lockToken s p custom = some t) :
     (step s (.lock p custom)).1.owner = some o ∧
     (t = o → (step s (.lock p custom)).2 = .bool true) ∧
-    (t ≠ o → t ≠ deniedTok s.srv →
-      (step s (.lock p custom)).2 = .bool false ∧ (step s (.lock p custom)).1.proxies = s.proxies) := by
-  obtain ⟨px, c, hp, hc, rfl⟩ := lockToken_some ht
+    (t ≠ o → (step s (.lock p custom)).2 = .bool false ∧ (step s (.lock p custom)).1.proxies = s.proxies) := by
+  have hd := lockToken_ne_denied ht
+  obtain ⟨px, c, hp, hc, hr, rfl⟩ := lockToken_some ht
   have hf := lockPre_frame s p px c custom
-  simp only [step, proxyLock_alive hp hc halive, ho, lockSpec]
+  simp only [step, proxyLock_alive hp hc hr halive, ho, lockSpec]
   by_cases h : (lockPre s p px c custom).2 = o
   · simp [h, setProxyTok]
   · have h' : ¬ o = (lockPre s p px c custom).2 := fun e => h e.symm
     simp only [Option.some.injEq, h, ↓reduceIte]
-    refine ⟨by split <;> simp [setProxyTok], fun e => e.elim, fun _ hd => ?_⟩
+    refine ⟨by split <;> simp [setProxyTok], fun e => e.elim, fun _ => ?_⟩
     have hd' : ¬ deniedTok s.srv = (lockPre s p px c custom).2 := fun e => hd e.symm
     simp [hd', hf.2.2.2.1]
 
-example : wLocked.dead = none ∧ wLocked.owner = some (mkToken "cli" 1) ∧
-    lockToken wLocked 1 none = some (mkToken "gui" 1) ∧ mkToken "gui" 1 ≠ mkToken "cli" 1 ∧
-    mkToken "gui" 1 ≠ deniedTok wLocked.srv := by decide
+example : wLocked.dead = none ∧ wLocked.owner = some (mkToken "cli" "b1" 1) ∧
+    lockToken wLocked 1 none = some (mkToken "gui" "c2" 1) ∧ mkToken "gui" "c2" 1 ≠ mkToken "cli" "b1" 1 := by decide
 
 /-- a `lock()` on a free object is granted: the request token becomes the owner and the proxy remembers it (in
 both of its token fields) -/
@@ -121,28 +97,23 @@ theorem lock_free_object {s : Sys} {p : Nat} {custom : Option String} {t : Token
     (halive : s.dead = none) (ho : s.owner = none) (ht : lockToken s p custom = some t) :
     (step s (.lock p custom)).1.owner = some t ∧ (step s (.lock p custom)).2 = .bool true ∧
     ∃ px, (step s (.lock p custom)).1.proxies[p]? = some px ∧ px.tok = some t ∧ px.nbTok = some t := by
-  obtain ⟨px, c, hp, hc, rfl⟩ := lockToken_some ht
+  obtain ⟨px, c, hp, hc, hr, rfl⟩ := lockToken_some ht
   have hf := lockPre_frame s p px c custom
   have hlt : p < s.proxies.length := (List.getElem?_eq_some_iff.1 hp).1
-  simp only [step, proxyLock_alive hp hc halive, ho, lockSpec]
+  simp only [step, proxyLock_alive hp hc hr halive, ho, lockSpec]
   simp [setProxyTok, hf.2.2.2.1, hlt]
 
 example : wFree.dead = none ∧ wFree.owner = none ∧ lockToken wFree 1 (some "x") = some ⟨"gui", "x"⟩ := by decide
 
-/-! FULL STATEMENT (false on the pinned tree, see `lock_granted_means_owner_false`):
-
-    theorem lock_granted_means_owner (halive : s.dead = none) (ht : lockToken s p custom = some t)
-        (hout : (step s (.lock p custom)).2 = .bool true) : (step s (.lock p custom)).1.owner = some t -/
-
-/-- `lock()` returned `True` ⇒ the caller's token owns the object — provided the token is not the denial
-placeholder of the owning context -/
-theorem lock_granted_means_owner_partial {s : Sys} {p : Nat} {custom : Option String} {t : Token}
-    (halive : s.dead = none) (ht : lockToken s p custom = some t) (hd : t ≠ deniedTok s.srv)
+/-- `lock()` returned `True` ⇒ the caller's token owns the object -/
+theorem lock_granted_means_owner {s : Sys} {p : Nat} {custom : Option String} {t : Token}
+    (halive : s.dead = none) (ht : lockToken s p custom = some t)
     (hout : (step s (.lock p custom)).2 = .bool true) :
     (step s (.lock p custom)).1.owner = some t := by
-  obtain ⟨px, c, hp, hc, rfl⟩ := lockToken_some ht
+  have hd := lockToken_ne_denied ht
+  obtain ⟨px, c, hp, hc, hr, rfl⟩ := lockToken_some ht
   have hd' : ¬ deniedTok s.srv = (lockPre s p px c custom).2 := fun e => hd e.symm
-  simp only [step, proxyLock_alive hp hc halive] at hout ⊢
+  simp only [step, proxyLock_alive hp hc hr halive] at hout ⊢
   cases ho : s.owner with
   | none => simp [lockSpec, setProxyTok]
   | some o =>
@@ -153,17 +124,18 @@ theorem lock_granted_means_owner_partial {s : Sys} {p : Nat} {custom : Option St
     · have h' : ¬ o = (lockPre s p px c custom).2 := fun e => h e.symm
       simp [h, hd'] at hout
 
-example : wFree.dead = none ∧ lockToken wFree 0 none = some (mkToken "cli" 1) ∧
-    mkToken "cli" 1 ≠ deniedTok wFree.srv ∧ (step wFree (.lock 0 none)).2 = .bool true := by decide
+example : wFree.dead = none ∧ lockToken wFree 0 none = some (mkToken "cli" "b1" 1) ∧
+    (step wFree (.lock 0 none)).2 = .bool true := by decide
 
-/-- negation witness: in the owning context, `lock(lock_token="__ACCESS_DENIED__")` on an object locked with
-`("srv","x")` answers `True` although the owner stays `("srv","x")` -/
-theorem lock_granted_means_owner_false :
-    ¬ (∀ (s : Sys) (p : Nat) (custom : Option String) (t : Token), s.dead = none → lockToken s p custom = some t →
-        (step s (.lock p custom)).2 = .bool true → (step s (.lock p custom)).1.owner = some t) := by
-  intro h
-  have := h wDenied 0 (some "__ACCESS_DENIED__") ⟨"srv", "__ACCESS_DENIED__"⟩ (by decide) (by decide) (by decide)
-  revert this
+/-- the strings used in lock replies are refused as custom tokens before anything is sent or changed
+(`QMI_UsageException`); this is what closes the former hole, shown here on the former counter-example -/
+theorem reserved_token_refused {s : Sys} {p : Nat} {custom : Option String} (hv : validProxy s p)
+    (hr : reservedCustom custom = true) : step s (.lock p custom) = (s, .usage) := by
+  obtain ⟨px, c, hp, hc⟩ := hv
+  simp only [step]
+  exact proxyLock_reserved hp hc hr
+
+example : step wDenied (.lock 0 (some "__ACCESS_DENIED__")) = (wDenied, .usage) ∧ wDenied.owner = some ⟨"srv", "x"⟩ := by
   decide
 
 /-! ## 3. Only the owner executes -/
@@ -207,7 +179,7 @@ theorem refused_without_executing {s : Sys} {p : Nat} {nb : Bool} {o : Token} {t
     rw [proxyCall_eq hp, callRequest_spec _ halive]
     simp [dispatchGuard, ho, hne]
 
-example : wLocked.dead = none ∧ wLocked.owner = some (mkToken "cli" 1) ∧ callToken wLocked 1 false = some none := by
+example : wLocked.dead = none ∧ wLocked.owner = some (mkToken "cli" "b1" 1) ∧ callToken wLocked 1 false = some none := by
   decide
 
 /-- conversely the owner (and everybody, when unlocked) gets through -/
@@ -234,7 +206,7 @@ theorem count_changes_only_by_execution (s : Sys) (op : Op) :
     (step s op).1.count = s.count ∨
     (∃ p nb, op = .call p nb ∧ (step s op).2 = .ran (s.count + 1) ∧ (step s op).1.count = s.count + 1) := by
   cases op with
-  | newCtx name => left; rfl
+  | newCtx name nonce => left; rfl
   | newProxy c => left; simp only [step]; split <;> rfl
   | burn c => left; simp only [step]; split <;> rfl
   | lock p custom =>
@@ -249,12 +221,14 @@ theorem count_changes_only_by_execution (s : Sys) (op : Op) :
       | none => rfl
       | some c =>
         dsimp only
-        have hf := lockRequest_frame (lockPre s p px c custom).1 .acquire (some (lockPre s p px c custom).2)
-        have hf2 := lockPre_frame s p px c custom
-        generalize lockRequest (lockPre s p px c custom).1 .acquire (some (lockPre s p px c custom).2) = r at hf ⊢
-        rcases r with ⟨s2, _ | their⟩
-        · dsimp only at hf ⊢; rw [hf.2.2.2.1, hf2.2.2.2.2]
-        · dsimp only at hf ⊢; split <;> simp [setProxyTok, hf.2.2.2.1, hf2.2.2.2.2]
+        split
+        · rfl
+        · have hf := lockRequest_frame (lockPre s p px c custom).1 .acquire (some (lockPre s p px c custom).2)
+          have hf2 := lockPre_frame s p px c custom
+          generalize lockRequest (lockPre s p px c custom).1 .acquire (some (lockPre s p px c custom).2) = r at hf ⊢
+          rcases r with ⟨s2, _ | their⟩
+          · dsimp only at hf ⊢; rw [hf.2.2.2.1, hf2.2.2.2.2]
+          · dsimp only at hf ⊢; split <;> simp [setProxyTok, hf.2.2.2.1, hf2.2.2.2.2]
   | unlock p custom =>
     left
     simp only [step]
@@ -313,11 +287,11 @@ theorem count_changes_only_by_execution (s : Sys) (op : Op) :
         | false => left; simp
 
 /-- history form of `only_owner_executes`: in every finite history from the initial state -/
-theorem only_owner_executes_history (srv : String) (ops : List Op) :
-    ∀ e ∈ trace (init srv) ops, ∀ p nb n, e.2.1 = .call p nb → e.2.2.2 = .ran n →
+theorem only_owner_executes_history (srv nonce : String) (ops : List Op) :
+    ∀ e ∈ trace (init srv nonce) ops, ∀ p nb n, e.2.1 = .call p nb → e.2.2.2 = .ran n →
       e.1.owner = none ∨ callToken e.1 p nb = some e.1.owner := by
   intro e he p nb n hop hout
-  obtain ⟨_, hstep⟩ := trace_mem he (Inv_init srv)
+  obtain ⟨_, hstep⟩ := trace_mem he (Inv_init srv nonce)
   rw [hop] at hstep
   have : (step e.1 (.call p nb)).2 = .ran n := by rw [← hstep]; exact hout
   exact (only_owner_executes this).2.1
@@ -331,7 +305,7 @@ theorem release_only_by_owner_or_force {s : Sys} {op : Op} {o : Token}
     (step s op).1.owner = none ∧
     ((∃ p, op = .forceUnlock p) ∨ (∃ p custom, op = .unlock p custom ∧ unlockToken s p custom = some (some o))) := by
   cases op with
-  | newCtx name => exact absurd ho hne
+  | newCtx name nonce => exact absurd ho hne
   | newProxy c => simp only [step] at hne; split at hne <;> exact absurd ho hne
   | burn c => simp only [step] at hne; split at hne <;> exact absurd ho hne
   | lock p custom =>
@@ -349,8 +323,9 @@ theorem release_only_by_owner_or_force {s : Sys} {op : Op} {o : Token}
   | isLocked p => rw [owner_isLocked] at hne; exact absurd ho hne
   | call p nb => rw [owner_call] at hne; exact absurd ho hne
 
-example : wLocked.owner = some (mkToken "cli" 1) ∧ (step wLocked (.unlock 0 none)).1.owner ≠ some (mkToken "cli" 1) ∧
-    (step wLocked (.forceUnlock 1)).1.owner ≠ some (mkToken "cli" 1) := by decide
+example : wLocked.owner = some (mkToken "cli" "b1" 1) ∧
+    (step wLocked (.unlock 0 none)).1.owner ≠ some (mkToken "cli" "b1" 1) ∧
+    (step wLocked (.forceUnlock 1)).1.owner ≠ some (mkToken "cli" "b1" 1) := by decide
 
 /-- the owner's unlock does release -/
 theorem owner_unlock_releases {s : Sys} {p : Nat} {custom : Option String} {o : Token}
@@ -375,12 +350,12 @@ example : wLocked.dead = none ∧ unlockToken wLocked 1 none = some none ∧
     unlockToken wLocked 1 (some "x") = some (some ⟨"gui", "x"⟩) := by decide
 
 /-- history form: every end of an ownership in every finite history -/
-theorem release_only_by_owner_or_force_history (srv : String) (ops : List Op) :
-    ∀ e ∈ trace (init srv) ops, ∀ o, e.1.owner = some o → e.2.2.1.owner ≠ some o →
+theorem release_only_by_owner_or_force_history (srv nonce : String) (ops : List Op) :
+    ∀ e ∈ trace (init srv nonce) ops, ∀ o, e.1.owner = some o → e.2.2.1.owner ≠ some o →
       e.2.2.1.owner = none ∧
       ((∃ p, e.2.1 = .forceUnlock p) ∨ (∃ p custom, e.2.1 = .unlock p custom ∧ unlockToken e.1 p custom = some (some o))) := by
   intro e he o ho hne
-  obtain ⟨_, hstep⟩ := trace_mem he (Inv_init srv)
+  obtain ⟨_, hstep⟩ := trace_mem he (Inv_init srv nonce)
   have h1 : e.2.2.1 = (step e.1 e.2.1).1 := by rw [← hstep]
   rw [h1] at hne ⊢
   exact release_only_by_owner_or_force ho hne
@@ -397,32 +372,32 @@ theorem is_locked_truthful {s : Sys} {p : Nat} (halive : s.dead = none) (hp : (s
 example : step wLocked (.isLocked 1) = (wLocked, .bool true) ∧ step wFree (.isLocked 0) = (wFree, .bool false) := by
   decide
 
-/-! ## 6. Lock requests are total
+/-! ## 6. Lock requests are total -/
 
-FULL STATEMENT (false on the pinned tree, see `lock_requests_total_false` in `Props/C04Pinned.lean`):
-
-    theorem lock_requests_total (halive : s.dead = none) (hop : op.isLockOp = true) :
-        (step s op).1.dead = none ∧ (step s op).2 ≠ .hang -/
-
-/-- every lock / unlock / force-unlock / query request, in every lock state, from every proxy, is answered and
-leaves the object serving — except a force-unlock of an unlocked object -/
-theorem lock_requests_total_partial {s : Sys} {op : Op} (halive : s.dead = none) (_hop : op.isLockOp = true)
-    (hne : ¬ ((∃ p, op = .forceUnlock p) ∧ s.owner = none)) :
+/-- every lock / unlock / force-unlock / query request — indeed every operation — in every lock state, from every
+proxy, is answered and leaves the object serving -/
+theorem lock_requests_total {s : Sys} {op : Op} (halive : s.dead = none) :
     (step s op).1.dead = none ∧ (step s op).2 ≠ .hang :=
-  step_total_partial halive hne
+  step_total halive
 
-example : wLocked.dead = none ∧ (Op.forceUnlock 1).isLockOp = true ∧ wLocked.owner ≠ none := by decide
+example : wFree.dead = none ∧ wFree.owner = none ∧ step wFree (.forceUnlock 0) = (wFree, .unit) := by decide
 
-/-- the defect is the only obstacle: with the one cell repaired the full statement `lock_requests_total` holds (for
-every operation, not only lock requests) -/
-theorem lock_requests_total_of_fix (ha : ForceUnlockedAnswers) {s : Sys} {op : Op} (halive : s.dead = none) :
-    (step s op).1.dead = none ∧ (step s op).2 ≠ .hang :=
-  step_total_fixed ha halive
+/-- history form: no finite history ever hangs or disables the object -/
+theorem never_hangs (srv nonce : String) (ops : List Op) :
+    (exec (init srv nonce) ops).dead = none ∧ ∀ e ∈ trace (init srv nonce) ops, e.2.2.2 ≠ .hang :=
+  no_hang_aux ops (init srv nonce) rfl
+
+/-- the formerly failing history (pinned tree: the force-unlock was never answered and neither was anything after
+it); a statement about the model of the current tree, kept as a regression example -/
+theorem force_unlock_unlocked_is_answered :
+    (run (init "srv" "a0") [.newCtx "cli" "b1", .newProxy 1, .forceUnlock 0, .isLocked 0, .lock 0 none, .call 0 false]).2
+      = [.idx 1, .idx 0, .unit, .bool false, .bool true, .ran 1] := by
+  decide
 
 /-- once the worker is dead it stays dead -/
 theorem dead_is_forever {s : Sys} (op : Op) (hd : s.dead ≠ none) : (step s op).1.dead = s.dead := by
   cases op with
-  | newCtx name => rfl
+  | newCtx name nonce => rfl
   | newProxy c => simp only [step]; split <;> rfl
   | burn c => simp only [step]; split <;> rfl
   | lock p custom =>
@@ -432,7 +407,10 @@ theorem dead_is_forever {s : Sys} (op : Op) (hd : s.dead ≠ none) : (step s op)
     | some px =>
       cases hc : s.ctxs[px.ctx]? with
       | none => simp [proxyLock, hp, hc]
-      | some c => rw [proxyLock_dead hp hc hd]; exact (lockPre_frame s p px c custom).2.1
+      | some c =>
+        cases hr : reservedCustom custom with
+        | true => rw [proxyLock_reserved hp hc hr]
+        | false => rw [proxyLock_dead hp hc hr hd]; exact (lockPre_frame s p px c custom).2.1
   | unlock p custom =>
     simp only [step]
     cases hp : s.proxies[p]? with
@@ -457,101 +435,66 @@ theorem dead_is_forever {s : Sys} (op : Op) (hd : s.dead ≠ none) : (step s op)
     | none => simp [proxyCall, hp]
     | some px => rw [proxyCall_eq hp, callRequest_dead _ hd]
 
-/-- history form: a history in which nobody force-unlocks an unlocked object never hangs and never disables the
-object (this covers method calls, context and proxy creation as well) -/
-theorem no_hang_without_force_on_unlocked (srv : String) (ops : List Op)
-    (h : ∀ e ∈ trace (init srv) ops, ¬ ((∃ p, e.2.1 = .forceUnlock p) ∧ e.1.owner = none)) :
-    (exec (init srv) ops).dead = none ∧ ∀ e ∈ trace (init srv) ops, e.2.2.2 ≠ .hang :=
-  no_hang_aux ops (init srv) rfl h
-
-example : ∀ e ∈ trace (init "srv") [.newProxy 0, .lock 0 none, .forceUnlock 0, .call 0 false],
-    ¬ ((∃ p, e.2.1 = .forceUnlock p) ∧ e.1.owner = none) := by
-  intro e he
-  simp only [trace, List.mem_cons, List.not_mem_nil, or_false] at he
-  rcases he with rfl | rfl | rfl | rfl
-  · rintro ⟨⟨p, hp⟩, _⟩; cases hp
-  · rintro ⟨⟨p, hp⟩, _⟩; cases hp
-  · rintro ⟨_, ho⟩; revert ho; decide
-  · rintro ⟨⟨p, hp⟩, _⟩; cases hp
-
 /-! ## 7. Token source and proxy bookkeeping -/
 
 /-- the two token fields of a proxy (`_lock_token`, `rpc_nonblocking._lock_token`) never differ, in any history -/
-theorem nb_token_in_sync (srv : String) (ops : List Op) :
-    ∀ px ∈ (exec (init srv) ops).proxies, px.tok = px.nbTok :=
-  (Inv_exec ops (Inv_init srv)).sync
+theorem nb_token_in_sync (srv nonce : String) (ops : List Op) :
+    ∀ px ∈ (exec (init srv nonce) ops).proxies, px.tok = px.nbTok :=
+  (Inv_exec ops (Inv_init srv nonce)).sync
 
-/-- `make_unique_token` is injective in (context name, counter value) -/
-theorem mkToken_injective {a b : String} {n m : Nat} (h : mkToken a n = mkToken b m) : a = b ∧ n = m :=
+/-- `make_unique_token` is injective in (context name, instance identifier, counter value), whatever the identifier
+strings are (the decimal counter contains no `_`) -/
+theorem mkToken_injective {a b na nb : String} {n m : Nat} (h : mkToken a na n = mkToken b nb m) :
+    a = b ∧ na = nb ∧ n = m :=
   mkToken_inj h
 
-/-! FULL STATEMENT (false on the pinned tree, see `auto_tokens_distinct_false`):
-
-    theorem auto_tokens_distinct (srv ops) : ∀ g1 ∈ (exec (init srv) ops).gens, ∀ g2 ∈ (exec (init srv) ops).gens,
-        g1.tok = g2.tok → g1.ctx = g2.ctx ∧ g1.n = g2.n
-
-(`gens` is the ghost log of every automatic token generation: context *instance*, counter value, token, proxy.) -/
-
-/-- in every history whose context instances carry pairwise distinct names: two automatically generated tokens are
-equal only if they come from the same context instance and the same counter value -/
-theorem auto_tokens_distinct_partial (srv : String) (ops : List Op)
-    (hn : ((exec (init srv) ops).ctxs.map Ctx.name).Nodup) :
-    ∀ g1 ∈ (exec (init srv) ops).gens, ∀ g2 ∈ (exec (init srv) ops).gens,
-      g1.tok = g2.tok → g1.ctx = g2.ctx ∧ g1.n = g2.n := by
-  have hinv := Inv_exec ops (Inv_init srv)
-  intro g1 h1 g2 h2 heq
-  obtain ⟨c1, hc1, _, _, ht1⟩ := hinv.gens_ok g1 h1
-  obtain ⟨c2, hc2, _, _, ht2⟩ := hinv.gens_ok g2 h2
-  rw [ht1, ht2] at heq
-  obtain ⟨hname, hnn⟩ := mkToken_inj heq
-  exact ⟨getElem?_name_inj hn hc1 hc2 hname, hnn⟩
+/-- **automatically generated tokens of different proxies / contexts / processes always differ.**  In every finite
+history, with any number of context instances that may share names: two automatically generated tokens are equal only
+if they come from the same context instance and the same counter value.  (`gens` is the ghost log of every automatic
+token generation: context *instance*, counter value, token, proxy.)  Hypothesis `hn` is the trusted-base assumption that
+the identifiers `os.urandom(6)` gives to distinct instances differ — freshness of randomness cannot be a theorem. -/
+theorem auto_tokens_distinct (srv nonce : String) (ops : List Op)
+    (hn : ((exec (init srv nonce) ops).ctxs.map Ctx.nonce).Nodup) :
+    ∀ g1 ∈ (exec (init srv nonce) ops).gens, ∀ g2 ∈ (exec (init srv nonce) ops).gens,
+      g1.tok = g2.tok → g1.ctx = g2.ctx ∧ g1.n = g2.n :=
+  auto_tokens_distinct_state (Inv_exec ops (Inv_init srv nonce)) hn
 
 /-- … hence no two generations ever produced the same token -/
-theorem auto_tokens_pairwise_distinct_partial (srv : String) (ops : List Op)
-    (hn : ((exec (init srv) ops).ctxs.map Ctx.name).Nodup) :
-    (exec (init srv) ops).gens.Pairwise (fun a b => a.tok ≠ b.tok) := by
-  have hinv := Inv_exec ops (Inv_init srv)
+theorem auto_tokens_pairwise_distinct (srv nonce : String) (ops : List Op)
+    (hn : ((exec (init srv nonce) ops).ctxs.map Ctx.nonce).Nodup) :
+    (exec (init srv nonce) ops).gens.Pairwise (fun a b => a.tok ≠ b.tok) := by
+  have hinv := Inv_exec ops (Inv_init srv nonce)
   refine hinv.gens_pw.imp_of_mem ?_
   intro a b ha hb hne heq
-  exact hne (auto_tokens_distinct_partial srv ops hn a ha b hb heq)
+  exact hne (auto_tokens_distinct srv nonce ops hn a ha b hb heq)
 
-example : ((exec (init "srv") [.newCtx "cli", .newCtx "gui", .newProxy 1, .newProxy 2, .lock 0 none, .unlock 0 none,
-      .lock 1 none, .lock 0 none]).ctxs.map Ctx.name).Nodup ∧
-    (exec (init "srv") [.newCtx "cli", .newCtx "gui", .newProxy 1, .newProxy 2, .lock 0 none, .unlock 0 none,
-      .lock 1 none, .lock 0 none]).gens.length = 3 := by decide
+/-- non-vacuity, on the population that used to be the counter-example: two clients named `cli` -/
+example : ((exec (init "srv" "a0") sameNameOps).ctxs.map Ctx.nonce).Nodup ∧
+    ((exec (init "srv" "a0") sameNameOps).ctxs.map Ctx.name) = ["srv", "cli", "cli"] ∧
+    (exec (init "srv" "a0") sameNameOps).gens.length = 2 := by decide
 
-/-- negation witness: two client contexts named `cli` -/
-theorem auto_tokens_distinct_false :
-    ¬ (∀ (srv : String) (ops : List Op), ∀ g1 ∈ (exec (init srv) ops).gens, ∀ g2 ∈ (exec (init srv) ops).gens,
-        g1.tok = g2.tok → g1.ctx = g2.ctx ∧ g1.n = g2.n) := by
-  intro h
-  have := h "srv" sameNameOps ⟨2, 1, mkToken "cli" 1, 1⟩ (by decide) ⟨1, 1, mkToken "cli" 1, 0⟩ (by decide) rfl
-  revert this
+/-- the formerly failing history (pinned tree: both same-named clients were told they own the lock and both got
+through): now the second `lock()` is denied and the second client's call is refused -/
+theorem same_named_clients_exclude_each_other :
+    (run (init "srv" "a0") sameNameOps).2 =
+      [.idx 1, .idx 2, .idx 0, .idx 1, .bool true, .bool false, .locked, .ran 1] ∧
+    (exec (init "srv" "a0") sameNameOps).owner = some (mkToken "cli" "b1" 1) := by
   decide
 
-/-- the consequence at the user level: both same-named clients are told they own the lock and both get through -/
-theorem same_named_clients_both_own :
-    (run (init "srv") sameNameOps).2 =
-      [.idx 1, .idx 2, .idx 0, .idx 1, .bool true, .bool true, .ran 1, .ran 2] ∧
-    (exec (init "srv") sameNameOps).owner = some (mkToken "cli" 1) := by
-  decide
+/-! ## 8. User level: only the holder gets through -/
 
-/-! ## 8. User level: only the holder gets through (under the hypotheses the pinned tree needs)
-
-FULL STATEMENT (false on the pinned tree — `same_named_clients_both_own` is the counter-example): the same without
-`hn`.  The hypothesis `hh` excludes custom tokens that deliberately imitate `$lock_<n>`. -/
-
-/-- User level, under the two hypotheses the pinned tree needs: context names pairwise distinct and no custom token
-imitating `$lock_<n>`.  After any history, if the object is locked with an automatically generated token, a method
-body runs only for the proxy whose `lock()` generated that token. -/
-theorem only_holder_executes_partial (srv : String) (ops : List Op)
-    (hn : ((exec (init srv) ops).ctxs.map Ctx.name).Nodup) (hh : ∀ o ∈ ops, o.honest)
+/-- After any history with any population of contexts (same-named or not), if the object is locked with an
+automatically generated token, a method body runs only for the proxy whose `lock()` generated that token.
+Hypotheses: `hn` as in `auto_tokens_distinct`; `hh`: no custom token deliberately imitates the automatic shape
+`$lock_<id>_<n>` (equal tokens "on purpose" are outside the property). -/
+theorem only_holder_executes (srv nonce : String) (ops : List Op)
+    (hn : ((exec (init srv nonce) ops).ctxs.map Ctx.nonce).Nodup) (hh : ∀ o ∈ ops, o.honest)
     {p : Nat} {nb : Bool} {n : Nat} {g : GenRec}
-    (hg : g ∈ (exec (init srv) ops).gens) (ho : (exec (init srv) ops).owner = some g.tok)
-    (hout : (step (exec (init srv) ops) (.call p nb)).2 = .ran n) : p = g.proxy := by
-  have hinv := Inv_exec ops (Inv_init srv)
-  have hhold := Holder_exec ops hh (Holder_init srv)
-  generalize exec (init srv) ops = s at *
+    (hg : g ∈ (exec (init srv nonce) ops).gens) (ho : (exec (init srv nonce) ops).owner = some g.tok)
+    (hout : (step (exec (init srv nonce) ops) (.call p nb)).2 = .ran n) : p = g.proxy := by
+  have hinv := Inv_exec ops (Inv_init srv nonce)
+  have hhold := Holder_exec ops hh (Holder_init srv nonce)
+  generalize exec (init srv nonce) ops = s at *
   obtain ⟨_, hown, _, _⟩ := only_owner_executes hout
   rcases hown with hown | hown
   · rw [ho] at hown; cases hown
@@ -566,12 +509,12 @@ theorem only_holder_executes_partial (srv : String) (ops : List Op)
       · have hk := auto_tokens_distinct_state hinv hn g' hg' g hg h1
         rw [← gens_same_key_eq hinv hg' hg hk]; exact h2.symm
       · obtain ⟨c, _, _, _, ht⟩ := hinv.gens_ok g hg
-        exact absurd (by rw [ht]; rfl) (hno g.n)
+        exact absurd ⟨c.nonce, g.n, by rw [ht]; rfl⟩ hno
 
-example : ((exec (init "srv") [.newCtx "cli", .newCtx "gui", .newProxy 1, .newProxy 2, .lock 0 none]).ctxs.map Ctx.name).Nodup ∧
-    (⟨1, 1, mkToken "cli" 1, 0⟩ : GenRec) ∈ (exec (init "srv") [.newCtx "cli", .newCtx "gui", .newProxy 1, .newProxy 2, .lock 0 none]).gens ∧
-    (exec (init "srv") [.newCtx "cli", .newCtx "gui", .newProxy 1, .newProxy 2, .lock 0 none]).owner = some (mkToken "cli" 1) ∧
-    (step (exec (init "srv") [.newCtx "cli", .newCtx "gui", .newProxy 1, .newProxy 2, .lock 0 none]) (.call 0 false)).2 = .ran 1 := by
+example : ((exec (init "srv" "a0") [.newCtx "cli" "b1", .newCtx "cli" "c2", .newProxy 1, .newProxy 2, .lock 0 none]).ctxs.map Ctx.nonce).Nodup ∧
+    (⟨1, 1, mkToken "cli" "b1" 1, 0⟩ : GenRec) ∈ (exec (init "srv" "a0") [.newCtx "cli" "b1", .newCtx "cli" "c2", .newProxy 1, .newProxy 2, .lock 0 none]).gens ∧
+    (exec (init "srv" "a0") [.newCtx "cli" "b1", .newCtx "cli" "c2", .newProxy 1, .newProxy 2, .lock 0 none]).owner = some (mkToken "cli" "b1" 1) ∧
+    (step (exec (init "srv" "a0") [.newCtx "cli" "b1", .newCtx "cli" "c2", .newProxy 1, .newProxy 2, .lock 0 none]) (.call 0 false)).2 = .ran 1 := by
   decide
 
 end QmiModel.Lock
